@@ -8,10 +8,11 @@ PRE = ('fax_l0', 'fmeth', 'stdspec', 'l1')
 BC = ('l0', 'l1_arith', 'l1_fun', 'ax_vec_from_refl', 'ax_f64_cloned')
 U = 'linalg::utils::'
 
-SPEC = c15.SPEC + r'''
+TRI_SPEC = r'''
 pub open spec fn upper_tri(m: Matrix) -> bool { forall|i: int, j: int| 0 <= j < i < m.nrows && j < m.ncols ==> rv(#[trigger] at2(m.data.v@, m.ncols as int, i, j)) == 0real }
 pub open spec fn lower_tri(m: Matrix) -> bool { forall|i: int, j: int| 0 <= i < m.nrows && i < j < m.ncols ==> rv(#[trigger] at2(m.data.v@, m.ncols as int, i, j)) == 0real }
 '''
+SPEC = c15.SPEC + TRI_SPEC
 is_ut = Fn(IM + 'is_upper_triangular', ret='r', level='L1', requires=['C15.tri.wf:: wf(*self)'],
            ensures=['C15.is_upper_triangular.def:: r == upper_tri(*self)'],
            loops={1: {'invariant': ['wf(*self)',
